@@ -401,9 +401,55 @@ let judge_dub args got =
       end
   | _ -> fail "ok-sig-4-estimates-ub-lb"
 
+(* Context::op on Reprs: the Repr returned = Repr::new of the pair of C03's as-is model (fprod_asis), flag included *)
+let mode_of = function
+  | "Zero" -> MZero | "Away" -> MAway | "Up" -> MUp | "Down" -> MDown
+  | "HalfEven" -> MHalfEven | "HalfAway" -> MHalfAway | m -> raise (Bad ("mode-" ^ m))
+let fop_of = function
+  | "add" -> FoAdd | "sub" -> FoSub | "mul" -> FoMul | "div" -> FoDiv | "inv" -> FoInv | "sqrt" -> FoSqrt
+  | "sqr" -> FoSqr | "cubic" -> FoCubic | o -> raise (Bad ("fop-" ^ o))
+let flag_name = function None -> "Exact" | Some NoOp -> "NoOp" | Some AddOne -> "AddOne" | Some SubOne -> "SubOne"
+let reason_name = function
+  | DivideBy0 -> "DivideBy0" | UnlimitedPrecision -> "UnlimitedPrecision" | RootNegative -> "RootNegative"
+  | _ -> "other"
+
+let judge_fprod args got =
+  match args with
+  | [ sb; sm; sop; sp; s1; e1; s2; e2 ] ->
+      let bb = base_of sb in
+      let bz = Zar.of_int bb in
+      let m = mode_of sm and o = fop_of sop and p = usz sp in
+      let s1 = z s1 and e1 = z e1 and s2 = z s2 and e2 = z e2 in
+      (match got with
+       | [ "ok"; ssig; sexp; flag; _prec; sdx; sdy; sly; scap; sn; sinl ] ->
+           let f = parse_frepr ssig sexp in
+           (* the invariants == relies on *)
+           if not (normalizedb bz f) then fail "normalised-result"
+           else if not (layout_ok w f.fsig (z scap) (usz sn) (sinl = "1")) then fail "canonical-significand"
+           else begin
+             let dx = usz sdx and dy = usz sdy and ly = usz sly in
+             let du s = if Zar.equal s s1 then dx else if Zar.equal s s2 then dy else ndigits bz s in
+             let dl s = if Zar.equal s s2 then ly else Zar.pred (ndigits bz s) in
+             let same =
+               (match fprod_asis bz du dl o p m s1 e1 s2 e2 with
+                | Ok ((ms, me), mf) -> Zar.equal ms f.fsig && Zar.equal me f.fexp && flag_name mf = flag
+                | _ -> false) in
+             pass ~extra:(Printf.sprintf "asis=%s cls=fprod-%s:base%d:%s" (if same then "same" else "diff") sop bb (if flag = "Exact" then "exact" else "rounded")) ()
+           end
+       | "panic" :: c :: _ ->
+           (* documented panics only: precision 0 for div / inv / sqrt, zero divisor, negative radicand *)
+           let du s = ndigits bz s and dl s = Zar.pred (ndigits bz s) in
+           (match fprod_asis bz du dl o p m s1 e1 s2 e2 with
+            | Panic r when reason_name r = c -> pass ~nt:false ~extra:(Printf.sprintf "asis=same cls=fprod-%s:panic-%s" sop c) ()
+            | Panic r -> fail ("panic-" ^ reason_name r)
+            | _ -> fail "ok-result")
+       | _ -> fail "ok-sig-exp-flag-prec-estimates-layout")
+  | _ -> fail "fprod-args"
+
 let judge op args got =
   try
     match op with
+    | "fprod" -> judge_fprod args got
     | "iop" -> judge_iop args got
     | "dub" -> judge_dub args got
     | "uint" -> judge_int false args got
